@@ -47,6 +47,7 @@ pub fn run(ctx: &mut Ctx) {
             let mut rng = Rng::for_case(seed, "C09", idx);
             let len = if miri { rng.range(4, 7) } else { rng.range(40, 200) } as usize;
             let mut ops = Vec::with_capacity(len);
+            let mut cur_ext = *rng.pick(&ALL_EXT);
             // phases: growing sizes then shrinking, so that buffers are reused without growth
             for k in 0..len {
                 let r = rng.below(20);
@@ -76,7 +77,11 @@ pub fn run(ctx: &mut Ctx) {
                         c.content = Content { kind: 1, seed: rng.next(), a: if rng.chance(1, 2) { hi } else { lo }, b: 0.0 };
                     }
                     c.alpha = if pt_has_alpha(c.pt) { Some(gen_alpha_pat(&mut rng)) } else { None };
-                    let ext = *rng.pick(&ALL_EXT);
+                    // the back-end changes only now and then, so that resets and clones happen between calls on one back-end
+                    if rng.chance(1, 6) {
+                        cur_ext = *rng.pick(&ALL_EXT);
+                    }
+                    let ext = cur_ext;
                     if r == 3 {
                         c.crop = Crop::Box([0.0, 0.0, c.sw as f64 + 1.0, c.sh as f64]);
                         ops.push(Op::Failing(c, ext));
@@ -90,6 +95,8 @@ pub fn run(ctx: &mut Ctx) {
         describe,
         |ops, stats, viols| {
             let mut copies = [Resizer::new(), Resizer::new()];
+            // the back-end is set only when it changes, so that it is part of the history like everything else
+            let mut exts: [Option<Ext>; 2] = [None, None];
             let mut cur = 0usize;
             stats.nontrivial(&describe(ops));
             for (k, op) in ops.iter().enumerate() {
@@ -106,6 +113,7 @@ pub fn run(ctx: &mut Ctx) {
                     }
                     Op::Clone => {
                         copies[1 - cur] = copies[cur].clone();
+                        exts[1 - cur] = exts[cur];
                         stats.count("clones", 1);
                     }
                     Op::Switch => {
@@ -114,6 +122,11 @@ pub fn run(ctx: &mut Ctx) {
                     }
                     Op::Resize(c, ext) | Op::Failing(c, ext) => {
                         let failing = matches!(op, Op::Failing(..));
+                        if exts[cur] != Some(*ext) {
+                            unsafe { copies[cur].set_cpu_extensions(ext.to_fr()) };
+                            exts[cur] = Some(*ext);
+                            stats.count("backend_switches", 1);
+                        }
                         with_px!(c.pt, P => one_call::<P>(&mut copies[cur], c, *ext, failing, k, stats, viols));
                     }
                 }
@@ -125,7 +138,9 @@ pub fn run(ctx: &mut Ctx) {
 fn one_call<P: Px>(r: &mut Resizer, c: &RCase, ext: Ext, failing: bool, k: usize, stats: &mut Stats, viols: &mut Vec<Viol>) {
     let src = make_pixels::<P>(c.sw, c.sh, &c.content, c.alpha.as_ref());
     let opts = c.options();
-    unsafe { r.set_cpu_extensions(ext.to_fr()) };
+    if Ext::of(r.cpu_extensions()) != ext {
+        viols.push(Viol::new("depends_on_history", format!("call {}: cpu_extensions() reports {:?}, {} was set", k, r.cpu_extensions(), ext.name())));
+    }
     let (got, events) = record(|| resize_with::<P>(r, &src, c.sw, c.sh, c.dw, c.dh, &opts));
     let fresh = resize_vec::<P>(&src, c.sw, c.sh, c.dw, c.dh, &opts, ext);
     stats.count("calls_compared", 1);
